@@ -349,10 +349,55 @@ MUTANTS = [
                                     self.buffer.put(&data[..]);
                                     // This is using a prepared statement
                                     if let Some(client_given_name) = metadata {'''),
-    dict(id="c08-no-close-on-evict", prop="C08", file="src/server.rs", expect="C08-R5",
-         what="evicted statement is not closed on the server",
-         old='''                let close_bytes: BytesMut = Close::new(&evicted_name).try_into()?;
-                bytes.extend_from_slice(&close_bytes);''', new='''                let _close_bytes: BytesMut = Close::new(&evicted_name).try_into()?;'''),
+    dict(id="c08-evicted-not-recorded", prop="C08", file="src/server.rs", expect="C08-R5",
+         what="evicted statement is neither closed nor recorded for closing",
+         old='''                self.remove_prepared_statement_from_cache(&evicted_name);
+                self.evicted_prepared_statements.push(evicted_name);''', new='''                self.remove_prepared_statement_from_cache(&evicted_name);'''),
+    dict(id="c08-eager-close-again", prop="C08", file="src/server.rs", expect="C08-R7",
+         what="D12 again: the eviction Close is sent from inside batch assembly",
+         old='''                self.remove_prepared_statement_from_cache(&evicted_name);
+                self.evicted_prepared_statements.push(evicted_name);''',
+         new='''                self.remove_prepared_statement_from_cache(&evicted_name);
+                let close_bytes: BytesMut = Close::new(&evicted_name).try_into()?;
+                bytes.extend_from_slice(&close_bytes);'''),
+    dict(id="c08-flush-after-assembly", prop="C08", file="src/client.rs", expect="C08-R7",
+         what="recorded statements are closed after the batch was assembled but before it is sent",
+         old='''                        // Add the sync message
+                        self.buffer.put(&message[..]);
+
+                        let mut should_send_to_server = true;''',
+         new='''                        server.close_evicted_prepared_statements().await?;
+
+                        // Add the sync message
+                        self.buffer.put(&message[..]);
+
+                        let mut should_send_to_server = true;'''),
+    dict(id="c08-no-take-back", prop="C08", file="src/server.rs", expect="C08-R7",
+         what="a statement recorded for closing (still on the server) is prepared again under the same name",
+         old='''        if !has_it {
+            if let Some(position) = self''', new='''        if false {
+            if let Some(position) = self'''),
+    dict(id="c08-flush-drops-names", prop="C08", file="src/server.rs", expect="C08-R5",
+         what="the flush forgets the recorded names without closing them",
+         old='''        if self.evicted_prepared_statements.is_empty() {
+            return Ok(());
+        }
+''', new='''        if self.evicted_prepared_statements.len() < 64 {
+            self.evicted_prepared_statements.clear();
+            return Ok(());
+        }
+'''),
+    dict(id="c08-flush-never-called", prop="C08", file="src/client.rs", expect="C08-R5",
+         what="nobody closes the recorded statements",
+         old='''                        server.close_evicted_prepared_statements().await?;
+''', new=''''''),
+    dict(id="c08-take-back-forgets-evicted", prop="C08", file="src/server.rs", expect="C08-R5",
+         what="taking a statement back evicts another one which is then forgotten",
+         old='''                if let Some(evicted_name) = self.add_prepared_statement_to_cache(name) {
+                    self.evicted_prepared_statements.push(evicted_name);
+                }
+                has_it = true;''', new='''                self.add_prepared_statement_to_cache(name);
+                has_it = true;'''),
     dict(id="c08-rewrite-changes-query", prop="C08", file="src/messages.rs", expect="C08-R6",
          what="rewrite touches more than the name",
          old='''            PREPARED_STATEMENT_COUNTER.fetch_add(1, Ordering::SeqCst)
